@@ -5,8 +5,17 @@ from histlib import hx
 TRUSTED = ["C02: tools/histlib.py map oracle (last successful write wins; deletes remove) and the hist harness glue"]
 
 
-def one_history(rng, nops, target_kinds=("ds", "ds", "ds", "grp")):
-    ops = [{"op": "mkds", "path": "/d", "dtype": "int32", "dims": [2]}, {"op": "write", "path": "/d", "val": "0100000002000000"},
+def one_history(rng, nops, target_kinds=("ds", "ds", "ds", "grp"), spec_safe=False):
+    first = [{"op": "mkds", "path": "/d", "dtype": "int32", "dims": [2]}, {"op": "write", "path": "/d", "val": "0100000002000000"}]
+    if rng.random() < 0.3:      # the attribute target is a compound / array / enum / opaque / reference dataset (a larger datatype message in its header)
+        if rng.random() < 0.5:
+            comp = histgen.rand_compound(rng, spec_safe)
+            d = dict(dtype="compound", dims=[2], comp=comp, csize=comp["csize"])
+            first = [dict({"op": "mkcompound", "path": "/d", "dims": [2]}, **comp), histgen.write_op(rng, "/d", d)]
+        else:
+            f = histgen.rand_ext_kind(rng, spec_safe, vlen=False)
+            first = [dict({"op": "mkds", "path": "/d", "dims": [2]}, **f), histgen.write_op(rng, "/d", dict(f, dims=[2]))]
+    ops = first + [
            {"op": "mkgroup", "path": "/g"}, {"op": "mkds", "path": "/e", "dtype": "float64", "dims": [1]},
            {"op": "write", "path": "/e", "val": "0000000000000840"}]
     names = histgen.name_pool(rng, rng.choice([2, 4, 9, 12, 20, 40]), long_names=rng.random() < 0.3)
